@@ -238,6 +238,12 @@ func checkMain(args []string) int {
 	for i, g := range canaryIdx {
 		canaryScripts[i] = script(g.E.assumes, not(g.Canary), nil)
 	}
+	if *dump != "" {
+		os.MkdirAll(*dump, 0755)
+		for i, g := range canaryIdx {
+			os.WriteFile(filepath.Join(*dump, "canary_"+sanitize(g.Name)+".smt2"), []byte(canaryScripts[i]), 0644)
+		}
+	}
 	canaryRes := make([]SolveResult, len(canaryIdx))
 	parallel(len(canaryIdx), 12, func(i int) { canaryRes[i] = solvePortfolio(canaryScripts[i], 5, seed) })
 	for i, g := range canaryIdx {
